@@ -71,6 +71,8 @@ func main() {
 		runC16(*out, *seed, *tier)
 	case "C19":
 		runC19(*out, *seed, *tier)
+	case "C17":
+		runC17(*out, *seed, *tier)
 	case "C04":
 		runC04(*out, *seed, *tier)
 	default:
